@@ -175,6 +175,17 @@ func (rg *proxyRig) alive() bool {
 	return res.StatusCode == 200 && strings.Contains(string(b), rg.accounts[0])
 }
 
+// dead: the probe fails three times in a row (one failed probe on a busy machine is not a dead proxy)
+func (rg *proxyRig) dead() bool {
+	for i := 0; i < 3; i++ {
+		if rg.alive() {
+			return false
+		}
+		time.Sleep(300 * time.Millisecond)
+	}
+	return true
+}
+
 // addAccount drops one more key file (and its password file) into the wallet directory of the running proxy and
 // waits until eth_accounts lists it (the file-system listener is on for this rig), for at most 10 seconds. From now
 // on the wallet's addresses include it whether or not the proxy noticed.
@@ -221,10 +232,12 @@ func (rg *proxyRig) post(body []byte, script map[string]map[string]any) map[stri
 	rg.fwd = nil
 	rg.mu.Unlock()
 	c := http.Client{Timeout: 20 * time.Second}
+	t0 := time.Now()
 	res, err := c.Post(rg.url, "application/json", bytes.NewReader(body))
 	obs := map[string]any{}
 	if err != nil {
 		obs["transportErr"] = true
+		obs["transportErrText"] = fmt.Sprintf("%v after %.1fs", err, time.Since(t0).Seconds())
 	} else {
 		b, _ := io.ReadAll(res.Body)
 		res.Body.Close()
@@ -236,10 +249,11 @@ func (rg *proxyRig) post(body []byte, script map[string]map[string]any) map[stri
 	rg.fwd = nil
 	rg.script = map[string]map[string]any{}
 	rg.mu.Unlock()
-	if !rg.alive() {
+	if rg.dead() {
 		obs["crashed"] = true
 		obs["stderr"] = trunc(rg.stderr.String(), 1500)
 		rg.crashes++
+		_ = rg.proc.Process.Kill()
 		_, _ = rg.proc.Process.Wait()
 		_ = rg.start(path.Join(rg.root, "ffsigner.yaml"))
 	}
@@ -378,8 +392,24 @@ func proxyScript(r *Rng) map[string]map[string]any {
 
 func addProxyCase(c *Ctx, rg *proxyRig, body []byte, script map[string]map[string]any, expect map[string]any, tags ...string) {
 	obs := rg.post(body, script)
+	if obs["transportErr"] == true && obs["crashed"] != true {
+		// no reply, yet the proxy is up and answers the probe: a proxy that drops this body does so every time, a
+		// connection lost to the machine (a stall under load, a keep-alive race) does not - ask once more, after
+		// whatever the first attempt set in motion has had time to finish, and keep what happened for the evidence
+		l, _ := c.Notes["transport_errors"].([]string)
+		if len(l) < 10 {
+			c.Notes["transport_errors"] = append(l, fmt.Sprint(obs["transportErrText"]))
+		}
+		time.Sleep(750 * time.Millisecond)
+		obs2 := rg.post(body, script)
+		if obs2["transportErr"] != true {
+			n, _ := c.Notes["transport_recovered_on_retry"].(int)
+			c.Notes["transport_recovered_on_retry"] = n + 1
+		}
+		obs = obs2
+	}
 	req := map[string]any{"op": "proxy.handle", "body": hx(body), "goValid": json.Valid(body), "script": script, "accounts": rg.accounts,
-		"implReply": obs["reply"], "implStatus": obs["status"], "implForwarded": rg.canonFwd(obs["forwarded"]), "crashed": obs["crashed"], "transportErr": obs["transportErr"], "stderr": obs["stderr"]}
+		"implReply": obs["reply"], "implStatus": obs["status"], "implForwarded": rg.canonFwd(obs["forwarded"]), "crashed": obs["crashed"], "transportErr": obs["transportErr"], "transportErrText": obs["transportErrText"], "stderr": obs["stderr"]}
 	for k, v := range expect {
 		req[k] = v
 	}
@@ -428,7 +458,7 @@ func proxyJudge(prop string) func(c *Ctx, req map[string]any, impl any, orc map[
 			return []Finding{{Kind: "violation", Region: "proxy.crash", Detail: "the proxy process died / stopped serving after this request: " + trunc(fmt.Sprint(req["stderr"]), 300)}}
 		}
 		if req["transportErr"] == true {
-			fs = append(fs, Finding{Kind: "violation", Region: "proxy.noreply", Detail: "no HTTP reply (connection dropped)"})
+			fs = append(fs, Finding{Kind: "violation", Region: "proxy.noreply", Detail: "no HTTP reply (connection dropped): " + fmt.Sprint(req["transportErrText"])})
 			return fs
 		}
 		if orc["wellFormed"] != true {
